@@ -174,19 +174,16 @@ def flags(repo):
     if n_append not in (1, 2):
         raise ValueError(f"ReadInstance: {n_append} calls of AppendEntityErrorMsg")
     out["complexReportsError"] = n_append == 2
-    # the terminating `;`
-    tails = re.findall(r"c\s*=\s*in\.peek\(\)\s*;\s*(if\(\s*c\s*[!=]=\s*'[E;]'\s*\)\s*\{.*?)AppendEntityErrorMsg", rib, re.S)
-    kinds = set()
-    for tl in tails:
-        if re.fullmatch(r"if\(\s*c\s*!=\s*'E'\s*\)\s*\{\s*in\s*>>\s*c\s*;\s*\}\s*", tl):
-            kinds.add(False)
-        elif re.fullmatch(r"if\(\s*c\s*==\s*';'\s*\)\s*\{\s*in\s*>>\s*c\s*;\s*\}\s*else\s+if\(\s*c\s*!=\s*'E'\s*\)\s*\{[^{}]*obj->Error\(\)\.GreaterSeverity\(\s*SEVERITY_WARNING\s*\)\s*;\s*sev\s*=\s*obj->Error\(\)\.severity\(\)\s*;\s*\}\s*", tl):
-            kinds.add(True)
-        else:
-            kinds.add("?")
-    if len(tails) != n_append or len(kinds) != 1 or "?" in kinds:
-        raise ValueError(f"ReadInstance: handling of the terminating ';' changed ({len(tails)} sites, {kinds})")
-    out["missingSemicolonReported"] = kinds.pop()
+    # the terminating `;` (two sites: subtype/supertype record and simple record)
+    old_shape = r"if\(\s*c\s*!=\s*'E'\s*\)\s*\{\s*in\s*>>\s*c\s*;\s*\}"
+    new_shape = (r"if\(\s*c\s*==\s*';'\s*\)\s*\{\s*in\s*>>\s*c\s*;\s*\}\s*else\s+if\(\s*c\s*!=\s*'E'\s*\)\s*\{[^{}]*"
+                 r"obj->Error\(\)\.GreaterSeverity\(\s*SEVERITY_WARNING\s*\)\s*;\s*sev\s*=\s*obj->Error\(\)\.severity\(\)\s*;\s*\}")
+    n_peek = len(re.findall(r"c\s*=\s*in\.peek\(\)\s*;\s*if\(\s*c\s*(?:!=\s*'E'|==\s*';')\s*\)", rib))
+    n_old = len(re.findall(r"c\s*=\s*in\.peek\(\)\s*;\s*" + old_shape, rib))
+    n_new = len(re.findall(r"c\s*=\s*in\.peek\(\)\s*;\s*" + new_shape, rib))
+    if n_peek != 2 or (n_old, n_new) not in ((2, 0), (0, 2)):
+        raise ValueError(f"ReadInstance: handling of the terminating ';' changed ({n_peek} sites, {n_old} old, {n_new} new)")
+    out["missingSemicolonReported"] = n_new == 2
     # state switch of ReadInstance
     if not re.search(r"case\s+SEVERITY_NULL:\s*case\s+SEVERITY_USERMSG:\s*if\(\s*_fileType\s*!=\s*WORKING_SESSION\s*\)\s*\{\s*node->ChangeState\(\s*completeSE\s*\)", rib):
         raise ValueError("ReadInstance: completeSE rule changed")
@@ -237,10 +234,12 @@ def flags(repo):
     rb_ = _strip(_body(bi, r"Severity\s+SDAI_Binary::ReadBinary\(", "SDAI_Binary::ReadBinary"))
     out["binaryRejectsEmpty"] = bool(re.search(r"str\.length\(\)\s*==\s*0", rb_))
     sr = _strip(_body(sa, r"Severity\s+STEPattribute::STEPread\(\s*istream", "STEPattribute::STEPread"))
-    m = re.search(r"if\(\s*Nullable\(\)\s*\)\s*\{(.*?)\}\s*else\s+if\(\s*!strict\s*\)", sr, re.S)
+    m = re.search(r"if\(\s*Nullable\(\)\s*\)\s*\{(.*?)\}\s*else\s+if\(\s*!strict\s*(&&\s*c\s*==\s*'\$'\s*)?\)", sr, re.S)
     if not m:
         raise ValueError("STEPattribute::STEPread: `$` branch changed")
     out["dollarKeepsError"] = not re.search(r"_error\.severity\(\s*SEVERITY_NULL\s*\)", m.group(1))
+    # lenient mode replaces only an explicit `$` (a parameter that is not there at all stays an error)
+    out["fillerOnlyForDollar"] = m.group(2) is not None
     return out
 
 
@@ -257,7 +256,8 @@ def rwCfg : StepModel.P21.RWCfg :=
     complexPartStrict := {f['complexPartStrict']}, recoveryKeepsSemicolon := {_b(f['recoveryKeepsSemicolon'])},
     complexReportsError := {_b(f['complexReportsError'])},
     skipInstanceSkipsComments := {_b(f['skipInstanceSkipsComments'])},
-    missingSemicolonReported := {_b(f['missingSemicolonReported'])} }}
+    missingSemicolonReported := {_b(f['missingSemicolonReported'])},
+    fillerOnlyForDollar := {_b(f['fillerOnlyForDollar'])} }}
 
 /-- the literal-level switches, re-derived by this extractor (C09's `Generated.lexCfg` is the primary tie for them) -/
 def rwLexCfg : StepModel.P21.LexCfg :=
